@@ -888,8 +888,11 @@ class StandardHamiltonian(EnergyOperator):
     `<https://arxiv.org/abs/1812.04403>`_
     """
 
-    def __init__(self, lh, ic_samp=None, prior_sampling_dtype=None):
+    def __init__(self, lh, ic_samp=None, prior_sampling_dtype=None, _offset=0.):
         self._lh = lh
+        # constant energy offset (prior energy of components that have been
+        # fixed by `simplify_for_constant_input`)
+        self._offset = _offset
         self._prior = GaussianEnergy(data=None, domain=lh.domain,
                                      sampling_dtype=prior_sampling_dtype)
         self._prior_sampling_dtype = prior_sampling_dtype
@@ -899,10 +902,13 @@ class StandardHamiltonian(EnergyOperator):
     def apply(self, x):
         self._check_input(x)
         lhx, prx = self._lh(x), self._prior(x)
+        res = lhx + prx
+        if self._offset != 0.:
+            res = res + self._offset
         if not x.want_metric or self._ic_samp is None:
-            return lhx + prx
+            return res
         met = SamplingEnabler(lhx.metric, prx.metric, self._ic_samp)
-        return (lhx+prx).add_metric(met)
+        return res.add_metric(met)
 
     @property
     def prior_energy(self):
@@ -923,13 +929,17 @@ class StandardHamiltonian(EnergyOperator):
 
     def _simplify_for_constant_input_nontrivial(self, c_inp):
         out, lh1 = self._lh.simplify_for_constant_input(c_inp)
+        offset = self._offset
+        cst = c_inp.extract_part(self._domain)
+        if cst is not None:  # keep the prior energy of the fixed components
+            offset = offset + 0.5*cst.s_vdot(cst).real
         psdt = self._prior_sampling_dtype
         if psdt is not None:
             if isinstance(psdt, dict):
                 psdt = {kk: vv for kk, vv in psdt.items() if kk in lh1.domain.keys()}
             else:
                 psdt = {kk: psdt for kk in lh1.domain.keys()}
-        return out, StandardHamiltonian(lh1, self._ic_samp, psdt)
+        return out, StandardHamiltonian(lh1, self._ic_samp, psdt, _offset=offset)
 
 
 class AveragedEnergy(EnergyOperator):
